@@ -306,14 +306,18 @@ def run_path_enum(desc):
         # `\\` in the pattern is a separator under FORCEWIN
         if len(segs) >= 2:
             bs = text.replace('/', '\\\\')
-            fl = flagval('gl', ['FORCEWIN'])
-            a = accepted('gl', text, names, fl)
-            b = accepted('gl', bs, names, fl)
-            out.evaluations += len(names)
-            if a != b:
-                d = sorted(a ^ b)[0]
-                out.violation({'mode': 'gl', 'pattern': text, 'escaped_backslash_form': bs, 'flags': ['FORCEWIN'], 'name': d,
-                               'relation': 'escaped backslash in the pattern is a separator'}, bucket=('R5p',))
+            deep = names + ['x/' + n for n in names[:40]] + ['x\\y\\' + n for n in names[:20]]
+            for fnames in (['FORCEWIN'], ['FORCEWIN', 'MATCHBASE'], ['FORCEWIN', 'MATCHBASE', 'GLOBSTAR'], ['FORCEWIN', 'CASE']):
+                # (with MATCHBASE: a pattern that contains a separator, however it is spelled, is not a bare base name)
+                fl = flagval('gl', fnames)
+                a = accepted('gl', text, deep, fl)
+                b = accepted('gl', bs, deep, fl)
+                out.evaluations += len(deep)
+                if a != b:
+                    d = sorted(a ^ b)[0]
+                    out.violation({'mode': 'gl', 'pattern': text, 'escaped_backslash_form': bs, 'flags': fnames, 'name': d,
+                                   'relation': 'escaped backslash in the pattern is a separator'}, bucket=('R5p', len(fnames)))
+                    break
         if idx % 499 == s:
             out.sample({'pattern': text, 'names': len(names), 'stream': 'path-enum'})
     return out
